@@ -268,7 +268,7 @@ class Session:
                 continue
             # (a sample: every model object lengthens the interpreter's look-up chains of whole-reactor scopes; materials
             # left out are never given probe entries by this session)
-            if n >= 1 and self.mat_rng.random() > 0.3:
+            if n >= 1 and self.mat_rng.random() > 0.7:
                 continue
             self.register(m)
             self.batch["req"].append("create [] _")
@@ -1183,7 +1183,7 @@ def do_readonly(ses, r, allobjs):
         f"{ses.ids[id(o)]}{'T' if o.p.readOnly else 'F'}" for o in sorted(objs, key=lambda o: ses.ids[id(o)])))
 
     def hook(t, pd, v, raised):
-        if ses.mat_rng.random() < 0.5:
+        if ses.mat_rng.random() < 0.25:
             return      # (the oracle judges every attempt; the model is asked about a sample of them)
         if pd is None:
             ses.emit(f"unlock {ses.ids[id(t)]}", ("reject " if raised else "ok ") + ses.obj_line(t))
